@@ -52,6 +52,14 @@ pub fn no_children(_: Tier) -> Vec<Child> {
     Vec::new()
 }
 
+/// The same workload at a quarter of the size under the `rel` build (overflow checks and debug
+/// assertions off): code behind `cfg(debug_assertions)`, a `debug_assert!`, or arithmetic that wraps
+/// instead of panicking behaves differently there, and the library's own tests only ever see one
+/// of the two builds.
+pub fn rel_child_quarter(_: Tier) -> Vec<Child> {
+    vec![Child { build: "rel", part: "rel", scale: 0.25 }]
+}
+
 pub fn rel_child(_: Tier) -> Vec<Child> {
     vec![Child { build: "rel", part: "rel", scale: 1.0 }]
 }
